@@ -78,18 +78,21 @@ theorem C04_later_ops_fail (s : St) (i : Nat) (o : Op) (tmo : Option Nat) (hd : 
   simp [step, ho, hp, hd]
 
 /-- an operation whose mailbox is not empty resolves at its next poll: with the value if one was
-delivered (even after a deadline), with an error if the sender was dropped — never pending -/
+delivered (even after a deadline; a decoding error if what was delivered is not an LDAPResult, F27), with an
+error if the sender was dropped — never pending, never a panic -/
 theorem C04_nonempty_mailbox_resolves (s : St) (i : Nat) (o : Op) (ho : s.ops[i]? = some o)
     (hres : o.res = none) (hph : o.phase ≠ .allocated) (hm : o.mail ≠ .empty) :
     ∃ r s', step s (.poll i) = some (s', .res (some r)) ∧ s'.ops = s.ops.set i { o with res := some r } ∧
-      (∀ f, o.mail = .frame f → r = .frame f) ∧ (o.mail = .ack → r = .ack) ∧ (o.mail = .dropped → r = .recvErr) := by
+      (∀ f, o.mail = .frame f → r = if f.good then .frame f else .decodeErr) ∧ (o.mail = .ack → r = .ack) ∧
+      (o.mail = .dropped → r = .recvErr) := by
   cases hmail : o.mail with
   | empty => exact absurd hmail hm
   | ack =>
     refine ⟨.ack, ({ s with ops := s.ops.set i { o with res := some .ack } } : St), ?_, by simp [hmail], by simp, by simp, by simp⟩
     simp [step, ho, hres, hph, hmail]
   | frame f =>
-    refine ⟨.frame f, ({ s with ops := s.ops.set i { o with res := some (.frame f) } } : St), ?_, by simp [hmail],
+    refine ⟨if f.good then .frame f else .decodeErr,
+      ({ s with ops := s.ops.set i { o with res := some (if f.good then .frame f else .decodeErr) } } : St), ?_, by simp [hmail],
       by simp, by simp, by simp⟩
     simp [step, ho, hres, hph, hmail]
   | dropped =>
@@ -150,7 +153,8 @@ theorem C04_dead_connection_nobody_waits (N : Nat) (evs : List Ev) (hf : FreshRu
     (hd : (run (init N) evs).drv ≠ .running) :
     (∀ (i : Nat) (o : Op), (run (init N) evs).ops[i]? = some o → o.phase ≠ .allocated → o.res = none →
       ∃ r s', step (run (init N) evs) (.poll i) = some (s', .res (some r)) ∧
-        (∀ f, o.mail = .frame f → r = .frame f) ∧ (o.mail = .ack → r = .ack) ∧ (o.mail = .dropped → r = .recvErr)) ∧
+        (∀ f, o.mail = .frame f → r = if f.good then .frame f else .decodeErr) ∧ (o.mail = .ack → r = .ack) ∧
+        (o.mail = .dropped → r = .recvErr)) ∧
     (∀ (c : Nat) (ch : Chan) (dl : Option Nat), (run (init N) evs).chans[c]? = some ch →
       ((run (init N) evs).ops[ch.opIdx]?.bind (·.res)) = some .ack → ch.rxAlive = true →
       (∃ it, ch.items[ch.taken]? = some it ∧ ∃ s', step (run (init N) evs) (.recv c dl) = some (s', .item (some it))) ∨
@@ -185,13 +189,28 @@ theorem C04_dead_connection_nobody_waits (N : Nat) (evs : List Ev) (hf : FreshRu
       simp only [step, hc, hack, hrx, hi, hopen]
       simp
 
-/-- the same for every history with at most `N` (= 2^31-1) allocations, with no schedule hypothesis -/
+/-- the same — value clauses and stream clause included — for every history with at most `N` (= 2^31-1)
+allocations, with no schedule hypothesis -/
 theorem C04_dead_connection_nobody_waits_nowrap (N : Nat) (evs : List Ev) (hcount : allocCount evs ≤ N)
-    (hd : (run (init N) evs).drv ≠ .running) (i : Nat) (o : Op)
-    (ho : (run (init N) evs).ops[i]? = some o) (hph : o.phase ≠ .allocated) (hres : o.res = none) :
-    ∃ r s', step (run (init N) evs) (.poll i) = some (s', .res (some r)) :=
-  let ⟨r, s', h, _⟩ := (C04_dead_connection_nobody_waits N evs (freshRun2_init N evs hcount) hd).1 i o ho hph hres
-  ⟨r, s', h⟩
+    (hd : (run (init N) evs).drv ≠ .running) :
+    (∀ (i : Nat) (o : Op), (run (init N) evs).ops[i]? = some o → o.phase ≠ .allocated → o.res = none →
+      ∃ r s', step (run (init N) evs) (.poll i) = some (s', .res (some r)) ∧
+        (∀ f, o.mail = .frame f → r = if f.good then .frame f else .decodeErr) ∧ (o.mail = .ack → r = .ack) ∧
+        (o.mail = .dropped → r = .recvErr)) ∧
+    (∀ (c : Nat) (ch : Chan) (dl : Option Nat), (run (init N) evs).chans[c]? = some ch →
+      ((run (init N) evs).ops[ch.opIdx]?.bind (·.res)) = some .ack → ch.rxAlive = true →
+      (∃ it, ch.items[ch.taken]? = some it ∧ ∃ s', step (run (init N) evs) (.recv c dl) = some (s', .item (some it))) ∨
+      (ch.items[ch.taken]? = none ∧ step (run (init N) evs) (.recv c dl) = some (run (init N) evs, .closed))) :=
+  C04_dead_connection_nobody_waits N evs (freshRun2_init N evs hcount) hd
+
+/-- F27 (repaired): a frame that is not an LDAPResult, delivered under the ID of a single-result operation, makes
+that operation return a decoding error at its next poll; nothing else in the state changes — the driver keeps
+running, both routing maps, the ID table and every other operation are as they were (the connection keeps
+serving the others), and the caller's task does not panic. -/
+theorem C04_non_result_frame_is_an_error (s : St) (i : Nat) (o : Op) (f : Frame) (ho : s.ops[i]? = some o)
+    (hres : o.res = none) (hph : o.phase ≠ .allocated) (hm : o.mail = .frame f) (hbad : f.good = false) :
+    step s (.poll i) = some ({ s with ops := s.ops.set i { o with res := some .decodeErr } }, .res (some .decodeErr)) := by
+  simp [step, ho, hres, hph, hm, hbad]
 
 /-! ### non-vacuity (tests): a connection that dies with one call answered, one waiting, one search open -/
 example :
